@@ -814,6 +814,130 @@ def sink_err_sticky(ctx):
         ctx.anchor_missing('sink writes in the multi-threaded writers')
 
 
+def _follow_known_bools(f, start):
+    """Follow an edge through the `matches!` idiom: blocks that only set bool temporaries to constants (or negate
+    a known one) and then switch on such a temporary. Returns the first block whose continuation is not decided
+    by those constants."""
+    from lzlint.core import op_const
+    env = {}
+    b = start
+    for _ in range(12):
+        blk = f.blocks[b]
+        ok = True
+        for st in blk['stmts']:
+            if st['k'] != 'assign' or st['lhs']['p']:
+                ok = False
+                break
+            rv = st['rv']
+            if rv['r'] == 'use' and op_const(rv['o']) is not None and f.locals[st['lhs']['l']]['ty'] in ('bool', '()'):
+                v = op_const(rv['o']).get('v')
+                if f.locals[st['lhs']['l']]['ty'] == 'bool':
+                    env[st['lhs']['l']] = bool(v)
+                continue
+            if rv['r'] == 'use' and op_local(rv['o']) in env:
+                env[st['lhs']['l']] = env[op_local(rv['o'])]
+                continue
+            if rv['r'] == 'un' and rv.get('op') == 'Not' and op_local(rv['o']) in env:
+                env[st['lhs']['l']] = not env[op_local(rv['o'])]
+                continue
+            ok = False
+            break
+        if not ok:
+            return b
+        t = blk['term']
+        if t['k'] == 'goto':
+            b = t['target']
+            continue
+        if t['k'] == 'switch' and op_local(t['discr']) in env:
+            val = 1 if env[op_local(t['discr'])] else 0
+            arms = {int(a[0]): a[1] for a in t['arms']}
+            b = arms.get(val, t['otherwise'])
+            continue
+        return b
+    return b
+
+
+@rule('ERR-STATE-ENTRY', ['C09', 'C05'], floor=6)
+def err_state_entry(ctx):
+    """Once a multi-threaded writer is in its error state (a unit was lost: failed sink write, failed worker) no
+    `&mut self` entry point of the Write implementation may report success again: `write` and `flush` test the
+    state before anything else can return Ok - a switch on `self.state` dominates every exit that can carry Ok, and
+    its Error edge leads only to Err returns; finish() likewise (the one-shot error store is not a substitute: the
+    call that reported the error has emptied it). Without the test a second flush() finds no sequence number left to wait for and returns
+    Ok(()) with a hole in the output."""
+    from rules.errors import _only_err_returns_from
+    from lzlint.core import op_const
+    F = ctx.facts
+    cs = coordinator_fns(F)
+    n = 0
+    seen = set()
+    for cf, _ in cs:
+        adt = cf.self_adt
+        if not adt or adt in seen:
+            continue
+        seen.add(adt)
+        entries = [g for g in F.fns if g.self_adt == adt and g.impl and last_seg(g.impl.get('trait')) == 'Write' and g.name in ('write', 'flush')]
+        if entries:
+            entries += [g for g in F.fns if g.self_adt == adt and g.name == 'finish' and g.kind != 'closure' and not (g.impl and g.impl.get('trait'))]
+        if not entries:
+            continue
+        ev, sty = _error_variant(F, cf)
+        if ev is None:
+            ctx.violation('%s:no-error-state' % cf.key, cf.loc(0), 'cannot find the writer\'s error state (fail closed)')
+            continue
+        for f in entries:
+            n += 1
+            key = '%s:fails-in-error-state' % f.key
+            # exits that can carry Ok: `_0 = Ok(..)` and calls whose result is written to _0 (tail calls)
+            okx = set()
+            for b in f.reachable:
+                blk = f.blocks[b]
+                if blk['cleanup']:
+                    continue
+                for st in blk['stmts']:
+                    if st['k'] == 'assign' and st['lhs']['l'] == 0 and not st['lhs']['p'] and st['rv']['r'] == 'agg' and st['rv'].get('variant_name') == 'Ok':
+                        okx.add(b)
+                t = blk['term']
+                if t['k'] == 'call' and t['dest']['l'] == 0 and not t['dest']['p']:
+                    c = callee_of(t)
+                    if not (c and strip_generics(c['path']).endswith('from_residual')):
+                        okx.add(b)
+            # switches on self.state
+            guards = []
+            for sb in f.reachable:
+                t = f.blocks[sb]['term']
+                if t['k'] != 'switch':
+                    continue
+                dl = op_local(t['discr'])
+                dd = f.whole_defs(dl) if dl is not None else []
+                if len(dd) != 1 or dd[0][2] != 'assign' or dd[0][3]['rv']['r'] != 'discr':
+                    continue
+                pl = dd[0][3]['rv']['p']
+                if not (pl['l'] == 1 and 'State' in pl['ty']):
+                    continue
+                arms = {int(a[0]): a[1] for a in t['arms']}
+                etgt = _follow_known_bools(f, arms.get(ev, t['otherwise']))
+                if _only_err_returns_from(f, etgt):
+                    guards.append(sb)
+            # an exit that can carry Ok for an input-independent reason (empty buffer) before the test is fine only if it is
+            # the `buf.is_empty()` shortcut: a zero-length write reports nothing about the stream
+            bad = []
+            for b in sorted(okx):
+                if any(f.dominates(g, b) for g in guards):
+                    continue
+                st_ok = [st for st in f.blocks[b]['stmts'] if st['k'] == 'assign' and st['lhs']['l'] == 0 and st['rv']['r'] == 'agg']
+                if st_ok and all(op_const(st['rv']['ops'][0]) is not None and (op_const(st['rv']['ops'][0]) or {}).get('v') == 0 for st in st_ok):
+                    continue   # Ok(0): the empty-write shortcut
+                bad.append(b)
+            if bad:
+                ctx.violation(key, f.loc(bad[0]), 'can return Ok without having tested the writer\'s state against %s (variant %d): after a lost unit '
+                              'this call reports success although the output has a hole' % (sty, ev))
+            else:
+                ctx.ok(key, f.loc(guards[0]) if guards else f.loc(0), 'every exit that can carry Ok (%d) is dominated by a test of self.state whose error edge only returns Err' % len(okx))
+    if not n:
+        ctx.anchor_missing('Write::write / Write::flush of the multi-threaded writers')
+
+
 @rule('PANIC-WAKE', ['C09', 'C10'], floor=4)
 def panic_wake(ctx):
     """A worker that unwinds while it holds a work unit still wakes its coordinator: before any crate code is
